@@ -300,8 +300,10 @@ class Monitor:
             else:
                 opts = [('lower', g[idx] - lo), ('upper', hi - g[idx])]
             for side, v in opts:
-                if abs(v) < af.INF_BOUND / 10 and abs(r - v) <= 1e-9 * (1 + abs(v)):
-                    matched = (tag, side)
+                if abs(r - v) <= 1e-9 * (1 + abs(v)):
+                    # the residual of an absent bound (+-1e30 -+ g) is a legitimate, always satisfied
+                    # entry; it does not present any bound of the element to the optimizer
+                    matched = (tag, side if abs(v) < af.INF_BOUND / 10 else 'none')
                     break
             if matched:
                 break
@@ -311,7 +313,7 @@ class Monitor:
         if matched[0] == 'stale':
             self.stale += 1
         side = matched[1]
-        for sd in (('lower', 'upper') if side == 'both' else (side,)):
+        for sd in (('lower', 'upper') if side == 'both' else (() if side == 'none' else (side,))):
             self.sides.add((name, idx, sd))
 
     def label(self, style):
